@@ -763,7 +763,10 @@ def summarize(fn, defer=True):
         if not any(is_symbolic(a) for a in args) and not any(is_symbolic(a) for a in kw.values()):
             return fn(*args, **kw)
         outer = EX()
-        paths, _ = explore(lambda: fn(*args, **kw), fuel=outer.fuel0)
+        # the nested exploration inherits the caller's assumptions and (float-free) path condition
+        from .explorer import has_fp
+        inherited = list(outer.base) + [c for c in outer.pc if not has_fp(c)]
+        paths, _ = explore(lambda: fn(*args, **kw), fuel=outer.fuel0, assumptions=inherited)
         out, rc, exc = merge_paths(paths)
         if exc is not None and not z3.is_false(rc):
             if defer:
